@@ -282,6 +282,15 @@ class FsSeam:
     def now(self):
         return self.sim.now if self.sim is not None else sched.EPOCH
 
+    def _vanish(self, path):
+        """A concurrent admin deletes the entry exactly here."""
+        try:
+            _real["unlink"](path)
+            self._stamp_parent(path)
+            self.count("vanished")
+        except OSError:
+            pass
+
     def _stamp(self, path, created=False, parent=False):
         """Give path (and optionally its parent directory) the simulated mtime."""
         t = self.now()
@@ -316,7 +325,10 @@ class FsSeam:
             self.oplog.append(("stat", rel))
         f = self._match("stat", rel)
         if f is not None:
-            raise _mk_oserror(f.kind, path)
+            if f.kind == "vanish":
+                self._vanish(path)
+            else:
+                raise _mk_oserror(f.kind, path)
         return self._fix_stat(_real["stat"](path, *a, **kw))
 
     def w_lstat(self, path, *a, **kw):
@@ -326,7 +338,10 @@ class FsSeam:
         self._yield("stat")
         f = self._match("stat", rel)
         if f is not None:
-            raise _mk_oserror(f.kind, path)
+            if f.kind == "vanish":
+                self._vanish(path)
+            else:
+                raise _mk_oserror(f.kind, path)
         return self._fix_stat(_real["lstat"](path, *a, **kw))
 
     def permute(self, rel, names):
@@ -403,7 +418,20 @@ class FsSeam:
         wr = any(c in mode for c in "wax+")
         f = self._match("open", rel, mode="w" if wr else "r")
         if f is not None:
-            raise _mk_oserror(f.kind, file)
+            if f.kind == "vanish":
+                self._vanish(file)
+            else:
+                raise _mk_oserror(f.kind, file)
+        try:
+            st0 = _real["stat"](file)
+        except OSError:
+            st0 = None
+        if st0 is not None and statmod.S_ISFIFO(st0.st_mode) and self.sim is not None:
+            # opening a FIFO with no peer blocks for ever
+            self.count("fifo_open_blocked")
+            self.sim.note("fifo-open-blocked", rel)
+            self.sim.block(lambda: False, None, "fifo-open")
+            raise sched.SimAbort()
         created = False
         if wr:
             created = not os.path.lexists(file)
